@@ -30,6 +30,7 @@ def rdSOp : Rd (Option SOp) := do
   -- the same assignment made through `begin() + y*w + x` (`pi`) or inside a range-for (`pr`): C16 says it is the same cell
   | "pi" => do let x ← Rd.int; let y ← Rd.int; let e ← rdElement; return some (.px x y e)
   | "pr" => do let x ← Rd.int; let y ← Rd.int; let e ← rdElement; return some (.px x y e)
+  | "pe" => do let x ← Rd.int; let y ← Rd.int; let e ← rdElement; return some (.px x y e)   -- through the mutable `end()`
   | "rz" => do let a ← Rd.int; let b ← Rd.int; return some (.rz a b)
   | "tsz" => do let a ← Rd.int; let b ← Rd.int; return some (.tsz a b)
   | "dr" => return some .dr
@@ -73,6 +74,7 @@ structure SSt where
   cvs : Canvas := Canvas.new ⟨0, 0⟩
   drawn : Option Canvas := none         -- the canvas last drawn (specification level)
   sized : Bool := false                 -- terminal size = canvas size declared
+  wantVisible : Option Bool := none     -- the cursor visibility last requested through the screen's terminal (C11)
   fails : List String := []
   stop : Bool := false
 
@@ -150,14 +152,30 @@ def runOracle (c : OCfg) : Nat → SSt → List SOp → List (List Byte × State
         -- written behind its back); positions must be inside the size
         let inDomain := match o with
           | .saveCursor | .restoreCursor | .hideCursor | .showCursor => true
+          | .input _ => true      -- close / is_alive / re-attach / input: nothing the output side knows about changes
           | .moveCursor p => decide (0 ≤ p.x) && decide (0 ≤ p.y) && decide (p.x.toNat < st.vt.w) && decide (p.y.toNat < st.vt.h)
           | _ => false
         if !inDomain then { st with stop := true } else
-        runOracle c (i + 1) { st with vt := (compactVT st.vt).feedAll bytes } ops rest
+        let want := match o with
+          | .hideCursor => some false
+          | .showCursor => some true
+          | _ => st.wantVisible
+        let vt' := (compactVT st.vt).feedAll bytes
+        let st := { st with vt := vt', wantVisible := want }
+        let st := match want with
+          | some b => if vt'.cursorVisible = b then st else st.fail s!"C11@{i} cursor visibility is not the one last requested"
+          | none => st
+        runOracle c (i + 1) st ops rest
     | .dr =>
       match answers with
       | [] => st.fail "C03 missing answer"
-      | (bytes, _) :: rest => runOracle c (i + 1) (checkDraw c i st bytes) ops rest
+      | (bytes, _) :: rest =>
+        let st := checkDraw c i st bytes
+        -- C11: a draw is not a mode request – the cursor visibility last requested is still in effect after it
+        let st := match st.wantVisible with
+          | some b => if st.vt.cursorVisible = b then st else st.fail s!"C11@{i} cursor visibility after the draw is not the one last requested"
+          | none => st
+        runOracle c (i + 1) st ops rest
 
 def oracle (kind : Char) (cfg rest real : String) : Option String :=
   if kind ≠ 'S' then none else
